@@ -33,6 +33,8 @@
 \*===========================================================================*/
 
 
+#include <set>
+
 #include <OpenVolumeMesh/Mesh/HexahedralMeshTopologyKernel.hh>
 
 namespace OpenVolumeMesh {
@@ -87,6 +89,23 @@ HexahedralMeshTopologyKernel::add_cell(std::vector<HalfFaceHandle> _halffaces, b
         if (valence(it->face_handle()) != 4) {
 #ifndef NDEBUG
             std::cerr << "Incident face does not have valence four! Aborting." << std::endl;
+#endif
+            return TopologyKernel::InvalidCellHandle;
+        }
+    }
+    {
+        // A hexahedron has eight distinct vertices: six quads that pass the halfedge-level checks
+        // below need not (e.g. a cube with two diagonally opposite corners identified).
+        std::set<VertexHandle> vertices;
+        for(const auto &hfh: _halffaces) {
+            for(const auto &heh: TopologyKernel::halfface(hfh).halfedges()) {
+                vertices.insert(TopologyKernel::halfedge(heh).from_vertex());
+                vertices.insert(TopologyKernel::halfedge(heh).to_vertex());
+            }
+        }
+        if(vertices.size() != 8) {
+#ifndef NDEBUG
+            std::cerr << "HexahedralMeshTopologyKernel::add_cell(): The halffaces span " << vertices.size() << " vertices instead of eight; not adding cell." << std::endl;
 #endif
             return TopologyKernel::InvalidCellHandle;
         }
